@@ -77,11 +77,23 @@ class Fault(Exception):
 
 
 class World:
-    def __init__(self, desc, root_dir):
+    def __init__(self, desc, root_dir, modname_unique=True):
         self.desc = desc
         self.root_dir = str(root_dir)
-        _MODULE_COUNTER[0] += 1
-        self.modname = f'tcvw_{os.getpid()}_{_MODULE_COUNTER[0]}'
+        # deterministic dotted module name (package:module groups of ModuleTask / DoubleModuleTask must be reproducible
+        # across processes, the golden vectors of C12 pin them); unique suffix only if the name is taken in this process
+        if 'tcvpkg' not in sys.modules:
+            pkg = types.ModuleType('tcvpkg')
+            pkg.__path__ = []
+            sys.modules['tcvpkg'] = pkg
+        base = 'tcvpkg.w' + hashlib.sha256(canon_json({k: desc[k] for k in ('tasks',)})).hexdigest()[:10]
+        self.modname = base
+        if base in sys.modules:
+            if modname_unique:
+                _MODULE_COUNTER[0] += 1
+                self.modname = f'{base}_{_MODULE_COUNTER[0]}'
+            else:
+                sys.modules.pop(base)
         self.rt = Runtime(self)
         self.classes = {}
         self._build_module()
@@ -97,7 +109,7 @@ class World:
         # helpers live in one underscore namespace: the library resolves `mod.Name` import strings by PREFIX match over
         # the module dict in insertion order, so nothing but the task classes (first) and object classes may be visible
         mod._h = types.SimpleNamespace(
-            Task=taskchain.Task, ModuleTask=taskchain.ModuleTask, Parameter=Parameter, InputTaskParameter=InputTaskParameter,
+            Task=taskchain.Task, ModuleTask=taskchain.ModuleTask, DoubleModuleTask=taskchain.DoubleModuleTask, Parameter=Parameter, InputTaskParameter=InputTaskParameter,
             Path=Path, np=np, pd=pd, tdata=tdata, Generator=__import__('collections.abc').abc.Generator,
             AutoParameterObject=AutoParameterObject, ParameterObject=ParameterObject, int=int, str=str, float=float,
         )
@@ -152,7 +164,7 @@ class World:
         return order
 
     def _class_source(self, key, t):
-        base = '_h.ModuleTask' if t.get('module_group') else '_h.Task'
+        base = {'module': '_h.ModuleTask', 'double': '_h.DoubleModuleTask', True: '_h.ModuleTask'}.get(t.get('module_group'), '_h.Task')
         meta = []
         if 'name' in t and t['name'] is not None:
             meta.append(f"name = {t['name']!r}")
